@@ -107,7 +107,12 @@ func (r restClientProtocol) addProtocolResponseHeaders(meta responseMeta, header
 	isErr := meta.end != nil && meta.end.err != nil
 	// Only JSON is supported for now unless using google.api.HttpBody
 	// payloads which override the content-type.
-	if headers["Content-Type"] == nil {
+	if isErr {
+		// The body of an error is always the JSON form of google.rpc.Status,
+		// whatever content type is in the header map by now (the backend's
+		// own, or that of a google.api.HttpBody message).
+		headers["Content-Type"] = []string{contentRestPrefix + CodecJSON}
+	} else if headers["Content-Type"] == nil {
 		headers["Content-Type"] = []string{contentRestPrefix + meta.codec}
 	}
 	if !isErr && meta.compression != "" {
